@@ -94,6 +94,7 @@ theorem opsPres_extends (f : FsCfg) (t0 : Tape) : OpsPres f (Extends t0) where
     · obtain ⟨s, hs⟩ := h.trans_append (moveItems a to rows env).2; exact ⟨s, by rw [h1, hs]⟩
   rebuild := fun w h => h
   stuck := fun w h => h
+  unstuck := fun w h => h
 
 /-! ### archives: records followed by a trailer -/
 
@@ -217,5 +218,6 @@ theorem opsPres_archWF (f : FsCfg) : OpsPres f ArchWF where
     · rw [h1]; exact appendItems_wf _ _ h (moveItems_allRecs _ _ _ _)
   rebuild := fun w h => h
   stuck := fun w h => h
+  unstuck := fun w h => h
 
 end Stfs
